@@ -4,6 +4,13 @@
 // signed voteproof object (INIT/ACCEPT, plain / expel / stuck, with the structural mutation the
 // candidate names) and reports the verdicts of the two real validators:
 // vp.IsValid(networkID) and isaac.IsValidVoteproofWithSuffrage(vp, suffrage)   (binding A).
+//
+// "history" replays the validation histories of the spec: the voteproofs of one history are handed, in
+// the model's order, to the validators of THIS process (whatever state the validators keep lives as long
+// as the process); every history has its own stage points, facts and freshly made signatures, so that
+// histories do not interfere. The signature-transplant mutations (tp-*) build sign facts that carry a
+// signature the node really made - for another fact, for another stage point, or made by another node -
+// spliced through the JSON codec like a sign fact received from the network.
 package c03
 
 import (
@@ -11,10 +18,13 @@ import (
 	"fmt"
 	"runtime"
 	"sync"
+	"sync/atomic"
 
 	"github.com/spikeekips/mitum/base"
 	"github.com/spikeekips/mitum/isaac"
 	"github.com/spikeekips/mitum/util"
+	"github.com/spikeekips/mitum/util/encoder"
+	jsonenc "github.com/spikeekips/mitum/util/encoder/json"
 	"github.com/spikeekips/mitum/util/valuehash"
 
 	"mitumverif/internal/h"
@@ -32,6 +42,18 @@ type cand struct {
 	Claim   string   `json:"claim"`
 	Mut     string   `json:"mut"`
 	Stage   string   `json:"stage"`
+	Pt      int      `json:"pt"` // 0: the stage point; 1: another stage point (next round)
+}
+
+type history struct {
+	N    int    `json:"n"`
+	T10  int    `json:"t10"`
+	Hist []cand `json:"hist"`
+}
+
+type histResult struct {
+	I     int      `json:"i"`
+	Steps []result `json:"steps"`
 }
 
 type result struct {
@@ -51,7 +73,26 @@ var (
 	netID    = base.NetworkID([]byte("c03-network"))
 	otherNet = base.NetworkID([]byte("c03-other-network"))
 	height   = int64(33)
+	enc      *jsonenc.Encoder
+	nextH    atomic.Int64 // heights of the forked worlds
 )
+
+func setupEncoder() error {
+	enc = jsonenc.NewEncoder()
+	for _, d := range []encoder.DecodeDetail{
+		{Hint: base.StringAddressHint, Instance: base.StringAddress{}},
+		{Hint: base.MPublickeyHint, Instance: &base.MPublickey{}},
+		{Hint: isaac.INITBallotFactHint, Instance: isaac.INITBallotFact{}},
+		{Hint: isaac.ACCEPTBallotFactHint, Instance: isaac.ACCEPTBallotFact{}},
+		{Hint: isaac.INITBallotSignFactHint, Instance: isaac.INITBallotSignFact{}},
+		{Hint: isaac.ACCEPTBallotSignFactHint, Instance: isaac.ACCEPTBallotSignFact{}},
+	} {
+		if err := enc.Add(d); err != nil {
+			return err
+		}
+	}
+	return nil
+}
 
 // world: one suffrage of n real nodes plus an outsider and a foreign key; facts A, B, C per stage.
 type world struct {
@@ -60,9 +101,10 @@ type world struct {
 	nodes    []base.LocalNode // 0-based: model node i+1
 	outsider base.LocalNode
 	foreign  base.Privatekey
-	point    base.Point
-	initF    map[string]base.INITBallotFact
-	accF     map[string]base.ACCEPTBallotFact
+	height   int64
+	points   [2]base.Point // [0] the stage point, [1] another stage point
+	initF    [2]map[string]base.INITBallotFact
+	accF     [2]map[string]base.ACCEPTBallotFact
 
 	mu  sync.Mutex
 	sfs map[string]base.BallotSignFact
@@ -71,19 +113,105 @@ type world struct {
 
 func newWorld(n int) (*world, error) {
 	suf, locals := isaac.NewTestSuffrage(n)
-	w := &world{n: n, suf: suf, nodes: locals, outsider: base.RandomLocalNode(), foreign: base.NewMPrivatekey(),
-		point: base.RawPoint(height, 0), initF: map[string]base.INITBallotFact{}, accF: map[string]base.ACCEPTBallotFact{},
-		sfs: map[string]base.BallotSignFact{}, ops: map[string]base.SuffrageExpelOperation{}}
-	for _, f := range []string{"A", "B", "C"} {
-		w.initF[f] = isaac.NewINITBallotFact(w.point, valuehash.RandomSHA256(), valuehash.RandomSHA256(), nil)
-		w.accF[f] = isaac.NewACCEPTBallotFact(w.point, valuehash.RandomSHA256(), valuehash.RandomSHA256(), nil)
-	}
+	w := &world{n: n, suf: suf, nodes: locals, outsider: base.RandomLocalNode(), foreign: base.NewMPrivatekey()}
+	w.reset(height)
 	return w, nil
 }
 
+// reset: new stage points, new facts, no signature made yet
+func (w *world) reset(h int64) {
+	w.height = h
+	w.sfs = map[string]base.BallotSignFact{}
+	w.ops = map[string]base.SuffrageExpelOperation{}
+	for pt := 0; pt < 2; pt++ {
+		w.points[pt] = base.RawPoint(h, uint64(pt))
+		w.initF[pt] = map[string]base.INITBallotFact{}
+		w.accF[pt] = map[string]base.ACCEPTBallotFact{}
+		for _, f := range []string{"A", "B", "C"} {
+			w.initF[pt][f] = isaac.NewINITBallotFact(w.points[pt], valuehash.RandomSHA256(), valuehash.RandomSHA256(), nil)
+			w.accF[pt][f] = isaac.NewACCEPTBallotFact(w.points[pt], valuehash.RandomSHA256(), valuehash.RandomSHA256(), nil)
+		}
+	}
+}
+
+// fork: the same suffrage and keys, its own stage points (height), facts and signatures
+func (w *world) fork() *world {
+	f := &world{n: w.n, suf: w.suf, nodes: w.nodes, outsider: w.outsider, foreign: w.foreign}
+	f.reset(1000 + nextH.Add(1))
+	return f
+}
+
+func (w *world) fact(stage string, pt int, f string) base.BallotFact {
+	if stage == "INIT" {
+		return w.initF[pt][f]
+	}
+	return w.accF[pt][f]
+}
+
+func other(f string) string {
+	if f == "A" {
+		return "B"
+	}
+	return "A"
+}
+
+// splice: a sign fact of `fact` that carries the node sign `sign`, made the way a received one is: by the JSON codec
+func splice(stage string, fact base.BallotFact, sign base.NodeSign) base.BallotSignFact {
+	ht := isaac.INITBallotSignFactHint
+	if stage != "INIT" {
+		ht = isaac.ACCEPTBallotSignFactHint
+	}
+	bf, err := enc.Marshal(fact)
+	if err != nil {
+		panic(err)
+	}
+	bs, err := enc.Marshal(sign)
+	if err != nil {
+		panic(err)
+	}
+	b, err := enc.Marshal(map[string]interface{}{"_hint": ht.String(), "fact": json.RawMessage(bf), "sign": json.RawMessage(bs)})
+	if err != nil {
+		panic(err)
+	}
+	i, err := enc.Decode(b)
+	if err != nil {
+		panic(fmt.Sprintf("splice: decode: %+v", err))
+	}
+	sf, ok := i.(base.BallotSignFact)
+	if !ok {
+		panic(fmt.Sprintf("splice: decoded %T", i))
+	}
+	return sf
+}
+
+// transplanted: the sign fact of `node` for (stage, pt, fact) whose signature was really made, but for something else
+//
+//	tp-fact   by node, for the other fact of the same stage point
+//	tp-point  by node, for the other fact of the other stage point
+//	tp-node   by donor (or, without a donor, by a node outside the suffrage) for this very fact; the sign names node and node's key
+func (w *world) transplanted(stage string, pt int, node base.LocalNode, fact, how string, donor base.LocalNode) base.BallotSignFact {
+	target := w.fact(stage, pt, fact)
+	switch how {
+	case "tp-fact":
+		src := w.signFact(stage, pt, node, other(fact), "")
+		return splice(stage, target, src.NodeSigns()[0])
+	case "tp-point":
+		src := w.signFact(stage, 1-pt, node, other(fact), "")
+		return splice(stage, target, src.NodeSigns()[0])
+	case "tp-node":
+		var src base.NodeSign
+		if donor == nil {
+			donor = w.outsider
+		}
+		src = w.signFact(stage, pt, donor, fact, "").NodeSigns()[0]
+		return splice(stage, target, base.NewBaseNodeSign(node.Address(), node.Publickey(), src.Signature(), src.SignedAt()))
+	}
+	panic("unknown transplant " + how)
+}
+
 // signFact: stage, signer (address + key), fact; variant "" | "wrongkey" | "badsig" | "second" (another object)
-func (w *world) signFact(stage string, node base.LocalNode, fact, variant string) base.BallotSignFact {
-	key := stage + "|" + node.Address().String() + "|" + fact + "|" + variant
+func (w *world) signFact(stage string, pt int, node base.LocalNode, fact, variant string) base.BallotSignFact {
+	key := fmt.Sprintf("%s|%d|%s|%s|%s", stage, pt, node.Address().String(), fact, variant)
 	w.mu.Lock()
 	defer w.mu.Unlock()
 	if sf, ok := w.sfs[key]; ok {
@@ -99,13 +227,13 @@ func (w *world) signFact(stage string, node base.LocalNode, fact, variant string
 	}
 	var out base.BallotSignFact
 	if stage == "INIT" {
-		sf := isaac.NewINITBallotSignFact(w.initF[fact])
+		sf := isaac.NewINITBallotSignFact(w.initF[pt][fact])
 		if err := sf.NodeSign(priv, nid, node.Address()); err != nil {
 			panic(err)
 		}
 		out = sf
 	} else {
-		sf := isaac.NewACCEPTBallotSignFact(w.accF[fact])
+		sf := isaac.NewACCEPTBallotSignFact(w.accF[pt][fact])
 		if err := sf.NodeSign(priv, nid, node.Address()); err != nil {
 			panic(err)
 		}
@@ -123,9 +251,9 @@ func (w *world) expelOp(target base.Address, tkey string, signers []int, variant
 	if op, ok := w.ops[key]; ok {
 		return op
 	}
-	start, end := base.Height(height), base.Height(height+1)
+	start, end := base.Height(w.height), base.Height(w.height+1)
 	if variant == "expired" {
-		start, end = base.Height(height-3), base.Height(height-2)
+		start, end = base.Height(w.height-3), base.Height(w.height-2)
 	}
 	reason := "c03 " + variant + util.UUID().String()
 	fact := isaac.NewSuffrageExpelFact(target, start, end, reason)
@@ -163,19 +291,35 @@ func (w *world) expelOp(target base.Address, tkey string, signers []int, variant
 func (w *world) build(c cand) base.Voteproof {
 	// sign facts
 	var sfs []base.BallotSignFact
-	first := -1
+	var voters []int
 	for i, v := range c.Votes {
-		if v == "-" {
-			continue
+		if v != "-" {
+			voters = append(voters, i)
 		}
-		variant := ""
-		if first < 0 {
+	}
+	first := -1
+	for j, i := range voters {
+		v := c.Votes[i]
+		isFirst := first < 0
+		if isFirst {
 			first = i
-			if c.Mut == "wrongkey" || c.Mut == "badsig" {
-				variant = c.Mut
-			}
 		}
-		sfs = append(sfs, w.signFact(c.Stage, w.nodes[i], v, variant))
+		switch {
+		case isFirst && (c.Mut == "wrongkey" || c.Mut == "badsig"):
+			sfs = append(sfs, w.signFact(c.Stage, c.Pt, w.nodes[i], v, c.Mut))
+		case c.Mut == "tp-fact-all", c.Mut == "tp-fact-one" && isFirst:
+			sfs = append(sfs, w.transplanted(c.Stage, c.Pt, w.nodes[i], v, "tp-fact", nil))
+		case c.Mut == "tp-point-all", c.Mut == "tp-point-one" && isFirst:
+			sfs = append(sfs, w.transplanted(c.Stage, c.Pt, w.nodes[i], v, "tp-point", nil))
+		case c.Mut == "tp-node-one" && isFirst:
+			var donor base.LocalNode
+			if len(voters) > 1 {
+				donor = w.nodes[voters[(j+1)%len(voters)]]
+			}
+			sfs = append(sfs, w.transplanted(c.Stage, c.Pt, w.nodes[i], v, "tp-node", donor))
+		default:
+			sfs = append(sfs, w.signFact(c.Stage, c.Pt, w.nodes[i], v, ""))
+		}
 	}
 	claimFact := c.Claim
 	if c.Claim == "DRAW" {
@@ -186,9 +330,9 @@ func (w *world) build(c cand) base.Voteproof {
 	}
 	switch c.Mut {
 	case "dup":
-		sfs = append(sfs, w.signFact(c.Stage, w.nodes[first], claimFact, "second"))
+		sfs = append(sfs, w.signFact(c.Stage, c.Pt, w.nodes[first], claimFact, "second"))
 	case "unknown-voter":
-		sfs = append(sfs, w.signFact(c.Stage, w.outsider, claimFact, ""))
+		sfs = append(sfs, w.signFact(c.Stage, c.Pt, w.outsider, claimFact, ""))
 	}
 	// expels
 	var expels []base.SuffrageExpelOperation
@@ -230,12 +374,9 @@ func (w *world) build(c cand) base.Voteproof {
 		if c.Claim == "DRAW" {
 			return nil
 		}
-		if c.Stage == "INIT" {
-			return w.initF[f]
-		}
-		return w.accF[f]
+		return w.fact(c.Stage, c.Pt, f)
 	}()
-	pt := w.point
+	pt := w.points[c.Pt]
 	switch c.Stage + "/" + c.Kind {
 	case "INIT/plain":
 		vp := isaac.NewINITVoteproof(pt)
@@ -285,33 +426,32 @@ func (w *world) build(c cand) base.Voteproof {
 	panic("unknown kind " + c.Stage + "/" + c.Kind)
 }
 
-func run(args []string) error {
-	if len(args) < 1 || args[0] != "replay" {
-		return fmt.Errorf("mode: replay --in cands --out verdicts")
-	}
-	fl := h.Flags(args[1:])
-	var cands []cand
-	if err := h.ReadNDJSON(fl["in"], func(line []byte) error {
-		var c cand
-		if err := json.Unmarshal(line, &c); err != nil {
-			return err
+// validate builds the candidate in w and asks the two real validators
+func validate(w *world, c cand, i int) result {
+	res := result{I: i}
+	res.Panic = h.Catch(func() {
+		vp := w.build(c)
+		res.Result = string(vp.Result())
+		res.NSF = len(vp.SignFacts())
+		if he, ok := vp.(base.HasExpels); ok {
+			res.NEX = len(he.Expels())
 		}
-		cands = append(cands, c)
-		return nil
-	}); err != nil {
-		return err
-	}
-	worlds := map[int]*world{}
-	for _, c := range cands {
-		if _, ok := worlds[c.N]; !ok {
-			w, err := newWorld(c.N)
-			if err != nil {
-				return err
-			}
-			worlds[c.N] = w
+		if err := vp.IsValid(netID); err != nil {
+			res.VErr = trim(err.Error())
+		} else {
+			res.Valid = true
 		}
-	}
-	results := make([]result, len(cands))
+		if err := isaac.IsValidVoteproofWithSuffrage(vp, w.suf); err != nil {
+			res.SErr = trim(err.Error())
+		} else {
+			res.Suf = true
+		}
+		res.Accepted = res.Valid && res.Suf
+	})
+	return res
+}
+
+func parallel(n int, f func(i int)) {
 	var wg sync.WaitGroup
 	ch := make(chan int, 1024)
 	for g := 0; g < runtime.NumCPU(); g++ {
@@ -319,42 +459,82 @@ func run(args []string) error {
 		go func() {
 			defer wg.Done()
 			for i := range ch {
-				c := cands[i]
-				w := worlds[c.N]
-				res := result{I: i + 1}
-				res.Panic = h.Catch(func() {
-					vp := w.build(c)
-					res.Result = string(vp.Result())
-					res.NSF = len(vp.SignFacts())
-					if he, ok := vp.(base.HasExpels); ok {
-						res.NEX = len(he.Expels())
-					}
-					if err := vp.IsValid(netID); err != nil {
-						res.VErr = trim(err.Error())
-					} else {
-						res.Valid = true
-					}
-					if err := isaac.IsValidVoteproofWithSuffrage(vp, w.suf); err != nil {
-						res.SErr = trim(err.Error())
-					} else {
-						res.Suf = true
-					}
-					res.Accepted = res.Valid && res.Suf
-				})
-				results[i] = res
+				f(i)
 			}
 		}()
 	}
-	for i := range cands {
+	for i := 0; i < n; i++ {
 		ch <- i
 	}
 	close(ch)
 	wg.Wait()
+}
+
+func run(args []string) error {
+	if len(args) < 1 || (args[0] != "replay" && args[0] != "history") {
+		return fmt.Errorf("mode: replay --in cands --out verdicts | history --in histories --out verdicts")
+	}
+	if err := setupEncoder(); err != nil {
+		return err
+	}
+	fl := h.Flags(args[1:])
+	worlds := map[int]*world{}
+	world := func(n int) error {
+		if _, ok := worlds[n]; !ok {
+			w, err := newWorld(n)
+			if err != nil {
+				return err
+			}
+			worlds[n] = w
+		}
+		return nil
+	}
 	out, err := h.NewOut(fl["out"])
 	if err != nil {
 		return err
 	}
 	defer out.Close()
+	if args[0] == "history" {
+		var hs []history
+		if err := h.ReadNDJSON(fl["in"], func(line []byte) error {
+			var x history
+			if err := json.Unmarshal(line, &x); err != nil {
+				return err
+			}
+			hs = append(hs, x)
+			return world(x.N)
+		}); err != nil {
+			return err
+		}
+		results := make([]histResult, len(hs))
+		// one process, one set of validators for all histories; inside a history strictly in the model's order
+		parallel(len(hs), func(i int) {
+			w := worlds[hs[i].N].fork()
+			r := histResult{I: i + 1}
+			for j, c := range hs[i].Hist {
+				c.N, c.T10 = hs[i].N, hs[i].T10
+				r.Steps = append(r.Steps, validate(w, c, j+1))
+			}
+			results[i] = r
+		})
+		for i := range results {
+			out.Emit(results[i])
+		}
+		return nil
+	}
+	var cands []cand
+	if err := h.ReadNDJSON(fl["in"], func(line []byte) error {
+		var c cand
+		if err := json.Unmarshal(line, &c); err != nil {
+			return err
+		}
+		cands = append(cands, c)
+		return world(c.N)
+	}); err != nil {
+		return err
+	}
+	results := make([]result, len(cands))
+	parallel(len(cands), func(i int) { results[i] = validate(worlds[cands[i].N], cands[i], i+1) })
 	for i := range results {
 		out.Emit(results[i])
 	}
